@@ -64,6 +64,7 @@ type step struct {
 	ID      int     `json:"id"`
 	M       string  `json:"m"`
 	Dropped int     `json:"dropped"`
+	PC      string  `json:"pc"` // field step: the writer's state after it (val | save | eng)
 	Exp     *obs    `json:"exp"`
 }
 type fsCase struct {
@@ -513,6 +514,25 @@ type event struct {
 type scheduler struct {
 	events chan event
 	free   atomic.Bool // pass everything through
+	saveQ  []*task     // tasks whose Save request is being served / waiting, in order (one SaveWriter goroutine)
+}
+
+// owner of an event seen while `running` is the task being advanced: the change-log append points are reached by the
+// SaveWriter goroutine on behalf of the head of the save queue; every other point by the running task itself.
+func (s *scheduler) owner(ev event, running *task) *task {
+	if strings.HasPrefix(ev.name, "fieldset.append.") && len(s.saveQ) > 0 {
+		return s.saveQ[0]
+	}
+	return running
+}
+
+func (s *scheduler) dequeue(t *task) {
+	for i, x := range s.saveQ {
+		if x == t {
+			s.saveQ = append(s.saveQ[:i:i], s.saveQ[i+1:]...)
+			return
+		}
+	}
 }
 
 var hookNames = map[string]bool{
@@ -539,7 +559,9 @@ type task struct {
 	auto   map[string]bool
 }
 
-const stepTimeout = 60 * time.Second
+const stepTimeout = 120 * time.Second
+
+var hookGen atomic.Int64
 
 // advance releases the task's parked event (if any) and runs it until it parks at a point not in task.auto or finishes.
 func (s *scheduler) advance(t *task) error {
@@ -550,23 +572,43 @@ func (s *scheduler) advance(t *task) error {
 		close(t.parked.release)
 		t.parked = nil
 	}
+	return s.wait(t)
+}
+
+// wait runs until t parks (at a point not in t.auto) or finishes; events of other tasks are filed with their owner.
+func (s *scheduler) wait(t *task) error {
+	if t.parked != nil || t.fin {
+		return nil
+	}
 	for {
 		select {
 		case ev := <-s.events:
-			if t.free || t.auto[ev.name] {
+			o := s.owner(ev, t)
+			if o.free || o.auto[ev.name] {
 				close(ev.release)
 				continue
 			}
 			e := ev
-			t.parked = &e
-			return nil
+			o.parked = &e
+			if o == t {
+				return nil
+			}
 		case err := <-t.done:
 			t.fin = true
 			t.err = err
+			s.dequeue(t)
 			return nil
 		case <-time.After(stepTimeout):
 			return fmt.Errorf("task %s neither parked nor finished within %s", t.kind, stepTimeout)
 		}
+	}
+}
+
+// kick releases t's parked event without waiting for what happens next (t is going to block behind another save)
+func (s *scheduler) kick(t *task) {
+	if t.parked != nil {
+		close(t.parked.release)
+		t.parked = nil
 	}
 }
 
@@ -779,17 +821,36 @@ func idxlPath(root string) string {
 
 func (h *histRun) abandonLive() {
 	// let every parked goroutine finish, close the live shard, forget it
+	h.s.free.Store(true)
+	var all []*task
 	for _, t := range h.writers {
 		if t != nil {
-			h.s.finish(t)
+			all = append(all, t)
 		}
 	}
 	if h.mt != nil {
-		h.s.finish(h.mt)
+		all = append(all, h.mt)
 	}
+	for _, t := range all {
+		h.s.kick(t)
+	}
+	deadline := time.After(stepTimeout)
+	for _, t := range all {
+		for !t.fin {
+			select {
+			case ev := <-h.s.events:
+				close(ev.release)
+			case err := <-t.done:
+				t.fin, t.err = true, err
+			case <-deadline:
+				t.fin = true
+				h.addDrift("abandoned_task_did_not_finish")
+			}
+		}
+	}
+	h.s.saveQ = nil
 	h.writers = map[int]*task{}
 	h.mt = nil
-	h.s.free.Store(true)
 	h.env.close()
 	h.s.free.Store(false)
 }
@@ -805,14 +866,20 @@ func (h *histRun) quiescent() bool {
 
 func runHist(fc *fsCase, renv *rt.Env) rt.Result {
 	c := newConc(concSeed(renv), "")
-	scratch := filepath.Join(renv.Scratch, "hist")
+	// own directory and own hook generation per case: a case abandoned by the watchdog may still be winding down
+	myGen := hookGen.Add(1)
+	scratch := filepath.Join(renv.Scratch, fmt.Sprintf("hist%d", myGen))
 	root := filepath.Join(scratch, "live0")
 	os.RemoveAll(scratch)
 	os.MkdirAll(scratch, 0o777)
 	defer os.RemoveAll(scratch)
 	s := &scheduler{events: make(chan event)}
 	tsdb.VerifSetHook(s.hook)
-	defer tsdb.VerifSetHook(nil)
+	defer func() {
+		if hookGen.Load() == myGen {
+			tsdb.VerifSetHook(nil)
+		}
+	}()
 	h := &histRun{c: c, env: &env{root: root}, s: s, scratch: scratch, writers: map[int]*task{}, wres: map[int]error{},
 		drift: map[string]bool{}, steps: fc.Steps, tags: []string{"float", "int", "ff", "fi", "if", "ii"}}
 	s.free.Store(true)
@@ -873,6 +940,17 @@ func runHist(fc *fsCase, renv *rt.Env) rt.Result {
 					break
 				}
 			}
+			// does this LoadOrStore end the validation with something to save (next step of this writer is "save")?
+			toSave := st.PC == "save"
+			if toSave {
+				behind := len(s.saveQ) > 0
+				s.saveQ = append(s.saveQ, t)
+				if behind {
+					// its request waits behind another writer's append: it reaches no schedule point until that is served
+					s.kick(t)
+					break
+				}
+			}
 			if err := s.advance(t); err != nil {
 				return rt.Infra(err.Error())
 			}
@@ -881,13 +959,22 @@ func runHist(fc *fsCase, renv *rt.Env) rt.Result {
 			if t == nil {
 				return rt.Infra("save step without writer")
 			}
-			if t.free || mismatch(t, "fieldset.append.before_write") {
+			if t.free {
+				break
+			}
+			if err := s.wait(t); err != nil { // (a request that waited behind another one is served now)
+				return rt.Infra(err.Error())
+			}
+			if mismatch(t, "fieldset.append.before_write") {
+				s.dequeue(t)
 				break
 			}
 			if err := s.advance(t); err != nil { // the append itself
 				return rt.Infra(err.Error())
 			}
-			if !mismatch(t, "fieldset.append.after_write") {
+			ok := !mismatch(t, "fieldset.append.after_write")
+			s.dequeue(t)
+			if ok {
 				if err := s.advance(t); err != nil {
 					return rt.Infra(err.Error())
 				}
@@ -938,6 +1025,7 @@ func runHist(fc *fsCase, renv *rt.Env) rt.Result {
 			name := []byte(c.m(st.M))
 			go func() { t.done <- sh.DeleteMeasurement(context.Background(), name) }()
 			h.mt = t
+			s.saveQ = append(s.saveQ, t)
 			if err := s.advance(t); err != nil {
 				return rt.Infra(err.Error())
 			}
@@ -951,6 +1039,7 @@ func runHist(fc *fsCase, renv *rt.Env) rt.Result {
 			if err := s.finish(t); err != nil {
 				return rt.Infra(err.Error())
 			}
+			s.dequeue(t)
 			h.mt = nil
 			if t.err != nil {
 				r := rt.Fail(i, "DeleteMeasurement failed: "+t.err.Error(), t.err.Error(), nil)
